@@ -486,6 +486,17 @@ def check_C08(res, ctx):
     conccheck.check_kv_schedules(res, ctx, [1, 3] if ctx.quick else [1, 2, 3])
     # a concurrent Merge: writers inside the window right after Merge released the lock, and inside its scan loop
     conccheck.check_merge_concurrent(res, ctx, rng_for(ctx.seed, "C08m"), [3] if ctx.quick else [1, 2, 3], 6 if ctx.quick else 40)
+    # readers of the last acknowledged key against a writer that rotates on almost every Put
+    for i in range(1 if ctx.quick else 6):
+        rep, err, rc = conccheck.run_race(ctx, 3 if ctx.quick else 15, 12, 1 + i % 3, i % 2, ctx.seed, race=False, mode="hot")
+        res.evaluations += 1
+        res.count("hot_reader_runs")
+        if rep is None or rep.get("errors"):
+            res.violation("Get of the last acknowledged key while the writer rotates (run %d): %s" % (i, json.dumps(rep)[:300] if rep else err[-300:]),
+                          {"cmd": "xkv race <dir> 3 12 %d %d %d hot" % (1 + i % 3, i % 2, ctx.seed), "report": rep})
+        else:
+            res.count("hot_gets", rep["counts"]["get"])
+            res.distinct.add("hot%d" % i)
     # free-running clients: live mapping vs restart at quiescence
     for i in range(2 if ctx.quick else 12):
         rep, err, rc = conccheck.run_race(ctx, 3 if ctx.quick else 20, [2, 8, 16][i % 3], 1 + i % 3, 0, ctx.seed * 100 + i, race=False)
